@@ -147,19 +147,45 @@ def build(verbose=False):
     return st
 
 
-def proof_status(prop):
+ALLOWED_AXIOMS = ("functional_extensionality", "proof_irrelevance", "Eqdep.Eq_rect_eq", "classic", "JMeq_eq",
+                  "propositional_extensionality", "constructive_indefinite_description", "epsilon", "dependent_unique_choice", "relational_choice")
+
+
+def run_coqchk(scratch, prop):
+    """thorough tier: the independent checker re-checks props/<prop>.vo and every library it depends on and
+    prints the axioms they rely on (-o).  -> dict(rc, axioms, wall_s, tail)"""
+    t0 = time.time()
+    rc, out = sh(f"timeout 2400 coqchk -silent -o -Q {COQ}/theories RPFT -Q {scratch} RPFTProps RPFTProps.{prop} 2>&1",
+                 cwd=scratch, timeout=2500)
+    axioms = []
+    m = re.search(r"\* Axioms:(.*?)(?:\n\s*\n|\* |\Z)", out, re.S)
+    if m:
+        axioms = [a.strip() for a in m.group(1).splitlines() if a.strip() and a.strip() != "<none>"]
+    switched_off = [l.strip() for l in out.splitlines()
+                    if re.match(r"\* (Constants/Inductives relying on|Inductives whose positivity)", l.strip()) and "<none>" not in l]
+    ok = rc == 0 and not switched_off and "Set is predicative" in out \
+        and all(any(al.split(".")[-1] in a for al in ALLOWED_AXIOMS) for a in axioms)
+    return dict(rc=rc, ok=ok, axioms=axioms, wall_s=round(time.time() - t0, 1), tail=out[-1500:])
+
+
+def proof_status(prop, chk=False):
     """Compile props/<prop>.v on its own and read what Print Assumptions printed.
-    Returns dict(obligations, discharged, theorems=[(name, ok, axioms)], log)."""
+    Returns dict(obligations, discharged, theorems=[(name, ok, axioms)], log); with chk also "coqchk"."""
     src = os.path.join(COQ, "props", f"{prop}.v")
     text = open(src).read()
     names = re.findall(r"^\s*(?:Theorem|Lemma|Example)\s+([A-Za-z0-9_']+)", text, re.M)
     scratch = tempfile.mkdtemp(prefix="rpftprop")
+    chkres = None
     try:
         shutil.copy(src, os.path.join(scratch, f"{prop}.v"))
-        rc, out = sh(f"timeout 900 coqc -Q {COQ}/theories RPFT -Q {COQ}/props RPFTProps {prop}.v 2>&1", cwd=scratch, timeout=1000)
+        rc, out = sh(f"timeout 900 coqc -Q {COQ}/theories RPFT -Q {scratch} RPFTProps {prop}.v 2>&1", cwd=scratch, timeout=1000)
+        if chk and rc == 0:
+            chkres = run_coqchk(scratch, prop)
     finally:
         shutil.rmtree(scratch, ignore_errors=True)
     res = {"obligations": len(names), "discharged": 0, "theorems": [], "log": out[-4000:], "rc": rc, "axioms": []}
+    if chkres is not None:
+        res["coqchk"] = chkres
     if rc != 0:
         # which theorem failed: the first whose Print Assumptions output is missing
         m = re.search(r'line (\d+), characters', out)
@@ -174,8 +200,7 @@ def proof_status(prop):
     # split the output into one block per Print Assumptions
     blocks = re.split(r"(?=Closed under the global context|Axioms:)", out)
     blocks = [b for b in blocks if b.startswith("Closed") or b.startswith("Axioms:")]
-    allowed = ("functional_extensionality", "proof_irrelevance", "Eqdep.Eq_rect_eq", "classic", "JMeq_eq",
-               "propositional_extensionality", "constructive_indefinite_description", "epsilon", "dependent_unique_choice", "relational_choice")
+    allowed = ALLOWED_AXIOMS
     for i, n in enumerate(names):
         if i < len(blocks):
             b = blocks[i]
@@ -342,6 +367,11 @@ class Verdict:
                 "correspondence harness harness/*.py (generators, canonicalisation)",
                 "hand-written Gallina mirrors of the Python functions (modelled, tied by differential execution)",
             ]
+            if proof.get("coqchk"):
+                c = proof["coqchk"]
+                cov["coqchk"] = dict(cmd=f"coqchk -silent -o -Q coq/theories RPFT RPFTProps.{self.prop}", rc=c["rc"], axioms=c["axioms"], wall_s=c["wall_s"])
+                cov["trusted_base"].append("coqchk -o (independent checker over the property file and every library it depends on): "
+                                           + ("rc=%d; axioms: %s" % (c["rc"], ", ".join(c["axioms"]) or "<none>")))
         if extra:
             cov.update(extra)
         if self.viol_by_key:
